@@ -59,6 +59,8 @@ type Exec struct {
 	usedUnknown map[string]bool
 	usedContracts map[string]bool
 	aborted bool
+	pendingBinds []Val
+	pendingFn *ssa.Function
 	prop string // property being decided: only clauses tagged with it (or untagged) are active
 }
 
@@ -895,6 +897,12 @@ func (ex *Exec) load(st *State, fr *Frame, p Val, ty types.Type) Val {
 				es := sortOf(arr.Elem())
 				return TV(ex.regionArr(st, nil, p.T, es), et)
 			}
+			if _, ok := et.Underlying().(*types.Struct); ok && strings.HasPrefix(p.T.S, "G_") {
+				// struct value behind an immutable package-level pointer
+				sym := "sv." + p.T.S
+				st.declare(sym, SortInt)
+				return TV(mkTerm(sym, SortInt), et)
+			}
 		}
 	}
 	st.note("load through unsupported pointer")
@@ -1148,6 +1156,12 @@ func (ex *Exec) binop(st *State, fr *Frame, op token.Token, a, b Val, rty types.
 	case x.Sort == SortBytes && y.Sort == SortBytes:
 		switch op {
 		case token.ADD:
+			// concatenation of two literals is the literal of the concatenation
+			if sa, ok := ex.constString(st, a); ok {
+				if sb, ok := ex.constString(st, b); ok {
+					return TV(st.strLit(sa+sb), rty)
+				}
+			}
 			return TV(BCat(x, y), rty)
 		case token.EQL:
 			return TV(Eq(x, y), rty)
